@@ -392,6 +392,33 @@ def rule_index(ctx):
                 n += 1
                 ctx.ob('C13.index', f'{e.fq}:{norm(x)}', _index_ok(x.slice, e.node, x),
                        f'{norm(x)}: the index can be negative or past the end without being wrapped or refused', x, m)
+    # a bounds-guarded (no-wrap) read ends the pattern at the first index outside the list: the position it tests must then be the
+    # unreduced running sum of the steps; reducing the position modulo the size brings every overrun back inside and the guard never fires
+    sl = m.classes['Pslide'].methods['__embed__']
+    guards = [c for c in walk_local(sl.node) if isinstance(c, ast.Compare) and all(isinstance(o, (ast.Lt, ast.LtE)) for o in c.ops)
+              and norm(c.comparators[-1]) in ('size', 'len(lst)', 'len(self.lst)')]
+    ctx.require(len(guards) >= 1, 'C13.index', 'Pslide: bounds guard of the no-wrap branch not found')
+    gvars = {n_.id for g in guards for n_ in ast.walk(g.comparators[-2] if len(g.comparators) > 1 else g.left) if isinstance(n_, ast.Name)}
+    loopvars = {n_.id for f_ in walk_local(sl.node) if isinstance(f_, ast.For) for n_ in ast.walk(f_.target) if isinstance(n_, ast.Name)}
+    state = gvars - loopvars
+    bad = []
+    for x in walk_local(sl.node):
+        tgt = val = None
+        if isinstance(x, ast.Assign) and isinstance(x.targets[0], ast.Name):
+            tgt, val = x.targets[0].id, x.value
+        elif isinstance(x, ast.AugAssign) and isinstance(x.target, ast.Name):
+            tgt, val = x.target.id, x.value
+            if isinstance(x.op, ast.Mod):
+                bad.append(norm(x))
+        if tgt in state and val is not None:
+            reduced = any(isinstance(y, ast.BinOp) and isinstance(y.op, ast.Mod) for y in ast.walk(val)) or \
+                any(isinstance(y, ast.Call) and (U.method_name(y) or U.call_name(y) or '').split('.')[-1] in ('mod', 'wrap', 'fold', 'clip') for y in ast.walk(val))
+            under_wrap = any(isinstance(p_, ast.If) and norm(p_.test) in ('wrap', 'self.wrap') and U.in_body(x, p_, 'body') for p_ in U.parent_chain(x))
+            if reduced and not under_wrap:
+                bad.append(norm(x))
+    ctx.ob('C13.index', f'{sl.fq}:position-unreduced', bool(state) and not bad,
+           f'the position tested by the no-wrap guard ({sorted(state)}) is reduced into the list by {bad}: a segment start that steps outside '
+           f'the list no longer ends the pattern', sl.node, m)
     ps = m.classes['Pseq'].methods['__init__']
     op = ps.params[3]
     ok = f'self.offset = int({op}) % len(self.lst)' in full(ps.node)
@@ -421,6 +448,8 @@ def run(ctx):
 
 
 MUTANTS = [
+    dict(rule='C13.index', name='Pslide keeps its position reduced modulo the size (seed C13-e)', file='sc3/seq/patterns/listpatterns.py',
+         old="                pos += step_stream.next(inval)  # raises StopStream", new="                pos = bi.mod(pos + step_stream.next(inval), size)  # raises StopStream"),
     dict(rule='C13.index', name='Pseq rotates its list in the constructor, subclasses rotate again (seed C13-c)', file='sc3/seq/patterns/listpatterns.py',
          old="        self.offset = int(offset) % len(self.lst)\n", new="        self.offset = int(offset) % len(self.lst)\n        if self.offset:\n            self.lst = self.lst[self.offset:] + self.lst[:self.offset]\n"),
     dict(rule='C13.inval', name='(fix reverted) Pshuffle embeds without the in-value', file='sc3/seq/patterns/listpatterns.py',
